@@ -53,6 +53,7 @@ bool g_log_reads = true;
 uint64_t g_gaps[kMaxPasses];
 int g_ngaps = 0;
 
+unsigned long long g_millis_base = 0;
 Seq g_din[kMaxPins];    // level per phase (setup, pass0, pass1, ...), last repeats
 Seq g_ain[kMaxPins];    // value per read, last repeats
 Seq g_pulse[kMaxPins];  // echo duration per pulseIn call, last repeats
@@ -139,6 +140,7 @@ void load_world(const char *path) {
     char *key = strtok_r(line, " \t\r\n", &save);
     if (!key || key[0] == '#') continue;
     if (!strcmp(key, "passes")) { char *v = strtok_r(nullptr, " \t\r\n", &save); if (v) g_passes = atoi(v); }
+    else if (!strcmp(key, "millis_base")) { char *v = strtok_r(nullptr, " \t\r\n", &save); if (v) g_millis_base = strtoull(v, nullptr, 10); }
     else if (!strcmp(key, "boot_us")) { char *v = strtok_r(nullptr, " \t\r\n", &save); if (v) g_now_us = strtoull(v, nullptr, 10); }
     else if (!strcmp(key, "cost_us")) { char *v = strtok_r(nullptr, " \t\r\n", &save); if (v) g_cost_us = strtoull(v, nullptr, 10); }
     else if (!strcmp(key, "max_events")) { char *v = strtok_r(nullptr, " \t\r\n", &save); if (v) g_max_events = atol(v); }
@@ -370,7 +372,9 @@ void delayMicroseconds(unsigned int us) {
 
 unsigned long millis() {
   tick_cost();
-  unsigned long v = static_cast<unsigned long>(g_now_us / 1000ULL);
+  // g_millis_base places the run shortly before the counter wraps (unsigned arithmetic wraps at 2^64 here, at 2^32
+  // on an AVR: the same modular behaviour for "now - last" / "last + interval" code)
+  unsigned long v = static_cast<unsigned long>(g_millis_base + g_now_us / 1000ULL);
   dst::log_event("MILLIS %lu", v);
   return v;
 }
